@@ -232,3 +232,158 @@ Proof. intros. now apply sqrtmp_5mod8. Qed.
 (* p = 2: the model of the code never returns (both loops need s > 0) *)
 Lemma sqrtmp_modulus_2_diverges (b : Z) : sqrtmp_with 1 2 b = SqDiverge.
 Proof. reflexivity. Qed.
+
+(* ---- p = 1 (mod 8): the two loops (Tonelli-Shanks in the formulation of the code) ------------------------------- *)
+Section TS.
+  Variables a p b : Z.
+  Hypothesis Pp : prime p.
+  Hypothesis P8 : p mod 8 = 1.
+  Hypothesis HQ : powm a ((p - 1) / 2) p = 1.
+  Hypothesis HN : powm b ((p - 1) / 2) p = p - 1.
+
+  Let P2 : 2 < p.
+  Proof. pose proof (prime_ge_2 _ Pp). assert (p <> 2) by (intros E; rewrite E in P8; discriminate P8). lia. Qed.
+
+  Lemma ts_loop1_spec : forall fuel s, 0 < s < 2 ^ Z.of_nat fuel -> powm a (2 * s) p = 1 ->
+    exists res, ts_loop1 fuel a p s = Some res /\
+      match res with
+      | inl r => 0 <= r < p /\ (r * r) mod p = a mod p
+      | inr s1 => 0 < s1 /\ (s1 | s) /\ powm a s1 p = p - 1
+      end.
+  Proof.
+    induction fuel as [|fuel IH]; intros s Hs H2; [cbn in Hs; lia|].
+    cbn [ts_loop1]. destruct (Z.eqb_spec (powm a s p) 1) as [E1|N1].
+    - destruct (Z.odd s) eqn:Od.
+      + eexists. split; [reflexivity|]. split; [apply powm_range; divlia|].
+        rewrite sq_powm by divlia.
+        assert (Es : 2 * ((s + 1) / 2) = s + 1).
+        { apply Z.odd_spec in Od. destruct Od as [k Hk]. subst s. divlia. }
+        rewrite Es, powm_succ by lia. rewrite E1, Z.mul_1_l. apply Zmod_mod.
+      + assert (Ev : s = 2 * (s / 2)).
+        { assert (Z.even s = true) by (rewrite <- Z.negb_odd, Od; reflexivity).
+          apply Z.even_spec in H. destruct H as [k Hk]. subst s. divlia. }
+        destruct (IH (s / 2)) as [res [Er Hr]].
+        * rewrite Nat2Z.inj_succ, Z.pow_succ_r in Hs by lia. lia.
+        * rewrite <- Ev. exact E1.
+        * exists res. split; [exact Er|]. destruct res as [r|s1]; [exact Hr|].
+          destruct Hr as (H0 & [c Hc] & H3). split; [assumption|]. split; [|assumption].
+          exists (2 * c). lia.
+    - eexists. split; [reflexivity|]. cbn beta iota. split; [lia|]. split; [apply Z.divide_refl|].
+      assert (F2 : (powm a s p * powm a s p) mod p = 1) by (rewrite sq_powm by lia; exact H2).
+      destruct (sqrt_one_prime p (powm a s p) Pp (powm_range a s p ltac:(lia) ltac:(lia)) F2); [contradiction|assumption].
+  Qed.
+
+  Definition ts_inv (s t : Z) : Prop :=
+    0 < s /\ (powm a s p * powm b t p) mod p = 1 /\ (exists u, 0 <= u /\ t = 2 * s * u) /\
+    (exists c, 0 <= c /\ (p - 1) / 2 = 2 * s * c).
+
+  Lemma ts_loop2_spec : forall fuel s t, s < 2 ^ Z.of_nat fuel -> ts_inv s t ->
+    exists s2 t2, ts_loop2 fuel a p b s t = Some (s2, t2) /\ ts_inv s2 t2 /\ Z.odd s2 = true.
+  Proof.
+    induction fuel as [|fuel IH]; intros s t Hs Inv; [destruct Inv as [H0 _]; cbn in Hs; lia|].
+    destruct Inv as (S0 & Prod & [u [Hu Ht]] & [c [Hc Hpc]]).
+    cbn [ts_loop2]. destruct (Z.even s) eqn:Ev.
+    - assert (Es : s = 2 * (s / 2)).
+      { apply Z.even_spec in Ev. destruct Ev as [k Hk]. subst s. divlia. }
+      set (s' := s / 2) in *. clearbody s'. subst s.
+      assert (Et : t / 2 = 2 * s' * u) by (subst t; divlia).
+      assert (S0' : 0 < s') by lia.
+      set (foo := (powm a s' p * powm b (t / 2) p) mod p).
+      assert (Fr : 0 <= foo < p) by (apply Z.mod_pos_bound; lia).
+      assert (F2 : (foo * foo) mod p = 1).
+      { unfold foo. rewrite (sq_combine p (powm a s' p) (powm b (t / 2) p) (powm a (2 * s') p) (powm b t p)); try lia.
+        - rewrite sq_powm by lia. symmetry. apply Z.mod_small. apply powm_range; lia.
+        - rewrite sq_powm by nia. replace (2 * (t / 2)) with t by nia. symmetry. apply Z.mod_small. apply powm_range; nia. }
+      apply IH.
+      + rewrite Nat2Z.inj_succ, Z.pow_succ_r in Hs by lia. lia.
+      + destruct (sqrt_one_prime p foo Pp Fr F2) as [F|F].
+        * destruct (Z.eqb_spec ((foo + 1) mod p) 0) as [Z0|_].
+          { exfalso. rewrite F in Z0. rewrite Z.mod_small in Z0 by lia. lia. }
+          split; [assumption|]. split; [fold foo; exact F|]. split; [exists u; split; [assumption|lia]|].
+          exists (2 * c). split; [lia|]. rewrite Hpc. ring.
+        * destruct (Z.eqb_spec ((foo + 1) mod p) 0) as [_|NZ].
+          2:{ exfalso. apply NZ. rewrite F. replace (p - 1 + 1) with (0 + 1 * p) by ring.
+              rewrite Z.mod_add by lia. reflexivity. }
+          split; [assumption|]. split.
+          { rewrite powm_add by nia. rewrite HN. rewrite Zmult_mod_idemp_r.
+            rewrite Z.mul_assoc. rewrite <- Zmult_mod_idemp_l. fold foo. rewrite F. apply minus_one_sq. lia. }
+          split.
+          { exists (u + 2 * c). split; [lia|]. rewrite Et, Hpc. ring. }
+          exists (2 * c). split; [lia|]. rewrite Hpc. ring.
+    - exists s, t. split; [reflexivity|]. split.
+      + split; [assumption|]. split; [assumption|]. split; [exists u|exists c]; auto.
+      + rewrite <- Z.negb_even, Ev. reflexivity.
+  Qed.
+
+  Lemma log2_up_fuel (s : Z) : 0 < s < p -> s < 2 ^ Z.of_nat (sq_fuel p).
+  Proof.
+    intros Hs. unfold sq_fuel. rewrite Nat2Z.inj_succ, Z2Nat.id by apply Z.log2_up_nonneg.
+    rewrite Z.pow_succ_r by apply Z.log2_up_nonneg.
+    pose proof (Z.log2_up_spec p ltac:(lia)). lia.
+  Qed.
+
+  Theorem sqrtmp_1mod8 : a <> 0 ->
+    exists r, sqrtmp_with a p b = SqOk r /\ 0 <= r < p /\ (r * r) mod p = a mod p.
+  Proof.
+    intros Ha. unfold sqrtmp_with. destruct (Z.eqb_spec a 0); [contradiction|].
+    assert (E4 : p mod 4 = 1) by (clear - P8; divlia). rewrite E4, P8. cbn [Z.eqb Pos.eqb].
+    set (s0 := (p - 1) / 4).
+    assert (Hs0 : 0 < s0 < p) by (unfold s0; clear - P2 P8; divlia).
+    assert (H2 : powm a (2 * s0) p = 1).
+    { replace (2 * s0) with ((p - 1) / 2) by (unfold s0; clear - P8; divlia). exact HQ. }
+    destruct (ts_loop1_spec (sq_fuel p) s0 ltac:(split; [lia|apply log2_up_fuel; lia]) H2) as [res [E1 Hr]].
+    rewrite E1. destruct res as [r|s1].
+    - exists r. split; [reflexivity|exact Hr].
+    - destruct Hr as (S1 & [c1 Hc1] & A1).
+      assert (C1 : 0 < c1) by nia.
+      assert (S1p : s1 < p) by nia.
+      assert (Inv : ts_inv s1 ((p - 1) / 2)).
+      { assert (Hh : (p - 1) / 2 = 2 * s1 * c1).
+        { replace ((p - 1) / 2) with (2 * s0) by (unfold s0; clear - P8; divlia). rewrite Hc1. ring. }
+        split; [assumption|]. split.
+        - rewrite A1, HN. apply minus_one_sq. lia.
+        - split; exists c1; (split; [lia|exact Hh]). }
+      destruct (ts_loop2_spec (sq_fuel p) s1 ((p - 1) / 2) (log2_up_fuel s1 ltac:(lia)) Inv) as (s2 & t2 & E2 & Inv2 & Od).
+      rewrite E2. eexists. split; [reflexivity|]. split; [apply Z.mod_pos_bound; lia|].
+      destruct Inv2 as (S2 & Prod & [u [Hu Ht]] & _).
+      apply Z.odd_spec in Od. destruct Od as [k Hk].
+      rewrite (sq_combine p _ _ (powm a (s2 + 1) p) (powm b t2 p)); try lia.
+      + rewrite powm_succ by lia. rewrite Zmult_mod_idemp_l.
+        replace (powm a s2 p * (a mod p) * powm b t2 p) with ((powm a s2 p * powm b t2 p) * (a mod p)) by ring.
+        rewrite <- Zmult_mod_idemp_l, Prod, Z.mul_1_l. apply Zmod_mod.
+      + rewrite sq_powm by (subst s2; divlia). replace (2 * ((s2 + 1) / 2)) with (s2 + 1) by (subst s2; divlia).
+        symmetry. apply Z.mod_small. apply powm_range; lia.
+      + assert (Eh : t2 / 2 = s2 * u) by (rewrite Ht; replace (2 * s2 * u) with ((s2 * u) * 2) by ring; apply Z.div_mul; lia).
+        rewrite Eh. rewrite sq_powm by nia. replace (2 * (s2 * u)) with t2 by (rewrite Ht; ring).
+        symmetry. apply Z.mod_small. apply powm_range; nia.
+  Qed.
+End TS.
+
+(* every odd prime, every residue class modulo 8, any 2-adic order of p - 1 *)
+Theorem sqrtmp_ok (a p b : Z) : prime p -> p <> 2 -> a <> 0 ->
+  powm a ((p - 1) / 2) p = 1 -> powm b ((p - 1) / 2) p = p - 1 -> sqrt_ok a p b.
+Proof.
+  intros Pp N2 Ha HQ HN. pose proof (prime_ge_2 _ Pp) as P2.
+  assert (Odd : p mod 2 = 1).
+  { destruct (Z.eq_dec (p mod 2) 0) as [E|E]; [|divlia].
+    apply Z.mod_divide in E; [|lia]. apply (prime_divisors p Pp) in E. lia. }
+  assert (C : p mod 8 = 1 \/ p mod 8 = 3 \/ p mod 8 = 5 \/ p mod 8 = 7) by (clear - Odd; divlia).
+  destruct C as [C|[C|[C|C]]].
+  - now apply sqrtmp_1mod8.
+  - apply sqrtmp_3mod4; try assumption; [lia|clear - C; divlia].
+  - now apply sqrtmp_5mod8.
+  - apply sqrtmp_3mod4; try assumption; [lia|clear - C; divlia].
+Qed.
+
+Corollary sqrtmn_two_primes_ok (a p q u v bp bq : Z) : prime p -> prime q -> p <> 2 -> q <> 2 -> a <> 0 ->
+  u * p + v * q = 1 ->
+  powm a ((p - 1) / 2) p = 1 -> powm bp ((p - 1) / 2) p = p - 1 ->
+  powm a ((q - 1) / 2) q = 1 -> powm bq ((q - 1) / 2) q = q - 1 ->
+  (exists r, sqrtmn_all_with a p q (p * q) u v bp bq = inl (Some r) /\ all_square a (p * q) r) /\
+  (exists r, sqrtmn_with a p q (p * q) u v bp bq = SqOk r /\ (r * r) mod (p * q) = a mod (p * q)).
+Proof.
+  intros Pp Pq Np Nq Ha B H1 H2 H3 H4.
+  pose proof (prime_ge_2 _ Pp). pose proof (prime_ge_2 _ Pq).
+  pose proof (sqrtmp_ok a p bp Pp Np Ha H1 H2) as Op. pose proof (sqrtmp_ok a q bq Pq Nq Ha H3 H4) as Oq.
+  split; [apply sqrtmn_all_ok|apply sqrtmn_ok]; auto; lia.
+Qed.
